@@ -1,0 +1,1 @@
+//! Verification hooks: shapeinfer (cfg `rten_verif`).
